@@ -57,6 +57,8 @@ func main() {
 		os.Exit(cmdMutant(os.Args[2:]))
 	case "instrument":
 		os.Exit(cmdInstrument(os.Args[2:]))
+	case "transcheck":
+		os.Exit(cmdTranscheck())
 	default:
 		usage()
 	}
@@ -573,6 +575,9 @@ func cmdWarm() int {
 		fmt.Printf("warm: built harness (instrumented=%v) files=%d go=%d chanops=%d selects=%d accesses=%d\n", rw, b.ist.Files, b.ist.GoStmts, b.ist.ChanOps, b.ist.Selects, b.ist.Accesses)
 		b.cleanup()
 	}
+	if rc := cmdTranscheck(); rc != 0 {
+		fmt.Println("warm: WARNING translation sanity check did not pass (see above); checks still run")
+	}
 	return 0
 }
 
@@ -588,6 +593,49 @@ func cmdInstrument(args []string) int {
 		return 2
 	}
 	fmt.Printf("%+v\n", st)
+	return 0
+}
+
+// cmdTranscheck: translation sanity check of the instrumentor.  The rewritten
+// package must still be a faithful program: the repository's own tests are run
+// against it with the runtime in passthrough mode (no controlled execution is
+// active, so every shim delegates to the real primitive).
+func cmdTranscheck() int {
+	scratch, err := os.MkdirTemp("", "flytmc-tc-")
+	if err != nil {
+		fmt.Fprintln(os.Stderr, "ERROR", err)
+		return 2
+	}
+	defer os.RemoveAll(scratch)
+	ov, st, err := instr.Run(instr.Config{RepoDir: repoDir, RtDir: filepath.Join(verifDir, "mc", "rt"),
+		ExportGo: filepath.Join(verifDir, "mc", "export", "zz_verif_export.go"), OutDir: scratch, Rewrite: true, Races: true})
+	if err != nil {
+		fmt.Fprintf(os.Stderr, "ERROR %v\n", err)
+		return 2
+	}
+	cmd := exec.Command("go", "test", "-overlay", ov, "-tags", "verif", "-vet=off", "-count=1", "-json", ".")
+	cmd.Dir = repoDir
+	cmd.Env = append(os.Environ(), goEnv...)
+	out, _ := cmd.CombinedOutput()
+	pass, fail := 0, 0
+	for _, l := range strings.Split(string(out), "\n") {
+		var ev struct{ Action, Test string }
+		if json.Unmarshal([]byte(l), &ev) == nil && ev.Test != "" {
+			switch ev.Action {
+			case "pass":
+				pass++
+			case "fail":
+				fail++
+				fmt.Println("FAIL", ev.Test)
+			}
+		}
+	}
+	fmt.Printf("transcheck: repository tests on the REWRITTEN package (passthrough runtime): %d passed, %d failed; rewritten %d files, %d go stmts, %d channel ops, %d selects, %d map ranges, %d access events\n",
+		pass, fail, st.Files, st.GoStmts, st.ChanOps, st.Selects, st.MapRanges, st.Accesses)
+	if fail > 0 || pass < 90 {
+		fmt.Println(tail(string(out), 2000))
+		return 2
+	}
 	return 0
 }
 
